@@ -1,6 +1,7 @@
 """C01 -- notebook diff followed by patch reproduces the target notebook exactly (also through files)."""
 import os, sys, json, copy
 import core, gennb, pyspec, wire
+import c03_common as K
 
 PROP = 'C01'
 ASSUME = [
@@ -16,6 +17,51 @@ def sources_are_strings(nb):
         s = c.get('source') if isinstance(c, dict) else None
         if isinstance(s, list) and not all(isinstance(x, str) for x in s): return False
     return True
+
+def py_shaped(nb):
+    """the hypothesis notebook_shaped of notebook_diff_total_and_correct, stated independently"""
+    if not isinstance(nb, dict) or not isinstance(nb.get('cells', []), list): return False
+    for k, v in nb.items():
+        if k != 'cells' and k.startswith('cells/'): return False
+    for c in nb.get('cells', []):
+        if not isinstance(c, dict): return False
+        if 'source' in c and isinstance(c['source'], (list, dict)): return False
+        if 'attachments' in c:
+            att = c['attachments']
+            if isinstance(att, list): return False
+            if isinstance(att, dict) and not all(isinstance(b, dict) for b in att.values()): return False
+        if 'outputs' in c:
+            outs = c['outputs']
+            if isinstance(outs, dict): return False
+            if isinstance(outs, list):
+                for o in outs:
+                    if not isinstance(o, dict) or not isinstance(o.get('output_type'), str): return False
+                    if o['output_type'] in ('display_data', 'execute_result') and not isinstance(o.get('data'), dict): return False
+    return True
+
+def nofloat(v):
+    if isinstance(v, float): return 0
+    if isinstance(v, list): return [nofloat(x) for x in v]
+    if isinstance(v, dict): return {k: nofloat(x) for k, x in v.items()}
+    return v
+
+def shape_hypothesis(chk, docs):
+    """evaluate the theorem's hypotheses (wfj, notebook_shaped, sources_are_strings) in Coq on generated notebooks and
+    compare with the independent statement above"""
+    terms = [K.coq_json(nofloat(d)) for d in docs]
+    text = ('From Coq Require Import List NArith ZArith String Bool.\nFrom NB Require Import Base.Json Diff.Codec Diff.NbTotal Diff.C01Proofs.\n'
+            'Import ListNotations.\nDefinition docs : list json :=\n [%s].\n'
+            'Eval vm_compute in (map (fun a => if wfj a && notebook_shaped a && sources_are_strings a then 1 else 0) docs).\n' % ';\n  '.join(terms))
+    ok, out = K.run_cases_v(text, rebuild=('Props/C01.vo',))
+    got = K.parse_nat_list(out) if ok else None
+    if got is None or len(got) != len(docs):
+        chk.broken_obligation('correspondence:theorem-hypotheses-evaluation', {'coqc': out[-600:]}); return
+    want = [1 if py_shaped(d) else 0 for d in docs]
+    bad = [i for i, (g, w) in enumerate(zip(got, want)) if g != w]
+    for i in bad[:2]:
+        chk.broken_obligation('correspondence:notebook_shaped-vs-independent-statement', {'doc': docs[i], 'coq': got[i], 'independent': want[i]})
+    chk.cov['theorem_hypotheses_evaluated_in_coq'] = len(docs)
+    chk.cov['theorem_hypotheses_satisfied'] = sum(got)
 
 def judge(case, res):
     a, b = case['a'], case['b']
@@ -138,6 +184,9 @@ def run(tier, seed):
                         chk.broken_obligation('correspondence:nbdiff', {'a': c['a'], 'b': c['b'], 'impl': res.get('ok'), 'model': val, 'oracle_misses': misses})
     else:
         chk.broken_obligation('model-build', b.log[-800:])
+    step = max(1, len(cases) // (40 if tier == 'quick' else 300))
+    shape_hypothesis(chk, [c['a'] for c in cases[::step]] + [{'cells': [{'cell_type': 'code', 'source': 'x', 'outputs': [{'output_type': 'display_data'}]}]},
+                                                             {'cells': [{'cell_type': 'code', 'source': ['x']}]}, {'cells': {}}])
     chk.cov['outside_theorem_hypothesis'] = sum(1 for c in cases if not sources_are_strings(c['a']))
     chk.cov.update({'evaluations': len(cases), 'distinct_nontrivial': len(nontrivial),
                     'rule': 'notebook pairs from harness/gennb.py (rich: all cell/output/mime kinds, minors 0-5, ids, attachments, exotic separators; plain; pairs of small notebooks), related by edit scripts or unrelated; the first cases also go through nbdiff --out / nbpatch -o files; non-trivial = non-empty diff, distinct by canonical JSON',
